@@ -306,6 +306,19 @@ mutual
       | .next => execBlock env (fuel - 1) scope rest st
       | other => pure (other, st)
 
+  /-- A statement list that also returns the scope at its end (for `break if`). -/
+  partial def execSeq (env : Env) (fuel : Nat) (scope : List (String × Bind)) (ss : List Sexp) (st : St) :
+      M (Flow × List (String × Bind) × St) := do
+    if fuel = 0 || st.steps = 0 then throw .fuel
+    let st := { st with steps := st.steps - 1 }
+    match ss with
+    | [] => pure (.next, scope, st)
+    | s :: rest => do
+      let (fl, scope, st) ← execStmt env (fuel - 1) scope s st
+      match fl with
+      | .next => execSeq env (fuel - 1) scope rest st
+      | other => pure (other, scope, st)
+
   /-- One statement; returns the (possibly extended) scope for the rest of the block. -/
   partial def execStmt (env : Env) (fuel : Nat) (scope : List (String × Bind)) (s : Sexp) (st : St) :
       M (Flow × List (String × Bind) × St) := do
@@ -413,15 +426,16 @@ mutual
     | .brk => pure (.next, st)
     | .ret v => pure (.ret v, st)
     | _ => do
-      let (fl2, st) ← match cont with
-        | .list cs => execBlock env (fuel - 1) scope cs st
-        | _ => pure (Flow.next, st)
+      -- `break if` is the last statement of the continuing block: it sees the block's own declarations
+      let (fl2, cscope, st) ← match cont with
+        | .list cs => execSeq env (fuel - 1) scope cs st
+        | _ => pure (Flow.next, scope, st)
       match fl2 with
       | .next => do
         let (stop, st) ← match brk with
           | .atom "nil" => pure (false, st)
           | e => do
-            let (v, st) ← eval env (fuel - 1) scope e st
+            let (v, st) ← eval env (fuel - 1) cscope e st
             pure (← opt (match v with | .bool b => some b | _ => none) "break-if", st)
         if stop then pure (.next, st) else execLoop env (fuel - 1) scope body cont brk st
       | .ret v => pure (.ret v, st)
